@@ -107,6 +107,10 @@ TEXT_BASES = {
     'multi-line-string': 'def s := "first\n   second"\ndef t: Int := 3\ndef u: Int := t + 1\nprint(u)\n',
     'multi-line-interpolated-string': 'def n := 2\ndef s := "a {n}\n  b {n + 1}\n"\ndef t: Int := 3\ndef u: Int := t + 1\nprint(u)\n',
     'empty-string-and-docstring': 'def e := ""\n"""\n"""\ndef t: Int := 3\ndef u: Int := t + 1\nprint(u)\n',
+    'non-ascii-comment-on-last-line': 'def fq(a: Int) -> Int => a + 1\ndef s := "plain"\nprint(fq(1) + fq(2))  # éééé ü ∑ 😀 ééééééé\n',
+    'non-ascii-string-on-last-line': 'def fq(a: Str) -> Str => a\ndef n := 2\nprint(fq("ééééééééééééééééé ü ∑ 😀" + fq("x")))\n',
+    'non-ascii-above': 'def s := "ééééééééééééééééééééééééééééééééééééééééééééééééééééééééééééééééééééééé"\n# ∑∑∑∑∑∑∑∑∑∑∑∑∑∑∑∑∑∑∑∑∑∑∑∑∑∑∑∑∑∑∑∑∑∑∑∑∑∑∑∑∑∑∑∑∑∑∑∑∑∑∑∑∑∑∑∑∑∑∑∑∑∑∑∑∑∑∑∑∑∑∑∑\ndef t: Int := 3\ndef u: Int := t + 1\nprint(u)\n',
+    'nested-interpolation': 'def fq(a: Str) -> Str => a\ndef nm := "n"\ndef other := "well then {fq(nm) + fq(nm) + fq("to {nm}")}"\ndef t: Int := 3\nprint(other)\nprint(t)\n',
     'crlf-docstring': '"""\r\ndoc\r\n"""\r\ndef a: Int := 1\r\ndef b: Int := a + 1\r\nprint(b)\r\n',
 }
 _LONG = 'def unrelated: Int := 10\n\ndef other: Int := unrelated + 1\n\nprint(other)\n\ndef scale(x: Int) -> Int => x * other\n\n'
@@ -123,7 +127,9 @@ SHORT_USER = {
 # ------------------------------------------------------------------------------------ fault injection
 # ill-typed statements put on a line of their own: each is reported by another part of the checker
 TYPE_FAULTS = {'type': 'def zq: Int := "bad"', 'type-undefined-name': 'print(zq_undefined)', 'type-none': 'def zq: Int := None', 'type-undefined-function': 'def zq: Int := zq_nofun(1)',
-               'type-operand': 'def zq := 1 + "s"', 'type-undefined-method': 'def zq := "s".zq_nomethod()', 'type-reassign-undefined': 'zq_nowhere := 1'}
+               'type-operand': 'def zq := 1 + "s"', 'type-undefined-method': 'def zq := "s".zq_nomethod()', 'type-reassign-undefined': 'zq_nowhere := 1',
+               'type-undefined-in-nested-interpolation': 'print("padding padding padding {1 + 2} and more {"inner text {zq_undefined} tail"} end")',
+               'type-undefined-in-interpolation-after-non-ascii': 'print("ééééééééééééééééééééééé {zq_undefined} é")'}
 
 def code_lines(src):
     """0-based indices of lines that hold code and are not part of a string that spans lines (at their start or their end)."""
@@ -331,7 +337,7 @@ def shard(i, n, nprog, nfuzz):
         part.count('fuzz-inputs')
     for tag, files in inputs.adversarial():
         k += 1
-        if k % n == i and not tag.startswith(('diamond-chain-16', 'diamond-chain-2', 'long-')):
+        if k % n == i and not tag.startswith(('diamond-chain-16', 'diamond-chain-2', 'long-', 'nested-interpolation-1', 'nested-interpolation-2', 'nested-interpolation-print-1', 'nested-interpolation-print-2')):
             judge(w, files, part, 'adversarial:' + tag)
     for rel, src in common.repo_samples('invalid'):
         k += 1
